@@ -143,14 +143,31 @@ def abs_messages(spec):
 def rel_messages(spec):
     out = []
     t = 0
+    sw = None
+    if spec.get("split_waits") is not None:
+        # a rest written as two (sometimes three) adjacent wait messages, as concatenate / pad / split leave them behind
+        import random
+        sw = random.Random(f"split-waits:{spec['split_waits']}")
+
+    def wait(n):
+        if sw is not None and n >= 2 and sw.random() < 0.6:
+            a = sw.randrange(1, n)
+            out.append(make_message("wait", (a,)))
+            if n - a >= 2 and sw.random() < 0.3:
+                b = sw.randrange(1, n - a)
+                out.append(make_message("wait", (b,)))
+                a += b
+            out.append(make_message("wait", (n - a,)))
+        else:
+            out.append(make_message("wait", (n,)))
     for (tt, _, _, _, k, pl) in abs_items(spec):
         if tt > t:
-            out.append(make_message("wait", (tt - t,)))
+            wait(tt - t)
             t = tt
         out.append(make_message(k, pl))
     pad = spec.get("pad")
     if pad and pad > t:
-        out.append(make_message("wait", (pad - t,)))
+        wait(pad - t)
     return out
 
 
